@@ -46,12 +46,10 @@ UNIT = dict(
     ('R6', 'struct InvokeCache', dict(pat='ObjRef<Class>', rep='ClassRef', count=1)),
     ('R6', 'InlineCache::*', dict(pat='ObjRef<Class>', rep='ClassRef', optional=True)),
     # unchecked indexing -> checked indexing: the bound becomes a proof obligation (it is the debug_assert! above it)
-    ('R6', 'InlineCache::get_property_cache', dict(pat='unsafe { self.property.get_unchecked(inline_slot) }', rep='&self.property[inline_slot]', count=1)),
-    ('R6', 'InlineCache::get_invoke_cache', dict(pat='unsafe { self.invoke.get_unchecked(inline_slot) }', rep='&self.invoke[inline_slot]', count=1)),
-    ('R6', 'InlineCache::set_property', dict(pat='unsafe { *self.property.get_unchecked_mut(inline_slot) = value };', rep='self.property[inline_slot] = value;', count=1)),
-    ('R6', 'InlineCache::set_invoke', dict(pat='unsafe { *self.invoke.get_unchecked_mut(inline_slot) = value };', rep='self.invoke[inline_slot] = value;', count=1)),
-    ('R14', 'InlineCache::get_property_cache', dict(pat='cache.class == class', rep='verif_class_eq(cache.class, class)', count=1)),
-    ('R14', 'InlineCache::get_invoke_cache', dict(pat='cache.class == class', rep='verif_class_eq(cache.class, class)', count=1)),
+    ('R6', 'InlineCache::*', dict(pat=r'unsafe \{ \*self\.(\w+)\.get_unchecked_mut\((\w+)\) = (\w+) \};', rep=r'self.\1[\2] = \3;', regex=True, optional=True)),
+    ('R6', 'InlineCache::*', dict(pat=r'unsafe \{ self\.(\w+)\.get_unchecked_mut\((\w+)\) \}', rep=r'(&mut self.\1[\2])', regex=True, optional=True)),
+    ('R6', 'InlineCache::*', dict(pat=r'unsafe \{ self\.(\w+)\.get_unchecked\((\w+)\) \}', rep=r'(&self.\1[\2])', regex=True, optional=True)),
+    ('R14', 'InlineCache::*', dict(pat=r'(\w+(?:\.\w+)*)\.class == (\w+(?:\.\w+)*)', rep=r'verif_class_eq(\1.class, \2)', regex=True, optional=True)),
     # ---- property / invoke handlers (C03, C13) ----
     ('R8', 'Vm::*'),
     # R9: the per-module cache lookup `self.inline_cache()[_mut]()` is the field `self.cache` of the model (A-slot)
